@@ -44,13 +44,15 @@ for part in ["re", "eps1", "eps2", "eps3"]:  # 2nd/3rd-order parts: timeout > 24
 # ------------------------------------------------------------------ C03 (iterator sums / products)
 IT = ("BOUNDED: iterator length <= 3 (lengths 0,1,2,3 in one harness); values fully symbolic (all f64 bit patterns, NaN parts "
       "compared as 'both NaN'); kani::unwind(5); solver cvc5")
-for ty in ["dual64", "dual2_64", "hyperdual64", "dual3_64", "hyperhyperdual64", "dualsvec64_2"]:
+for ty, ts, tp in [("dual64", "quick", "quick"), ("dual2_64", "quick", "quick"), ("hyperdual64", "quick", "thorough"),
+                   ("dual3_64", "quick", "thorough"), ("hyperhyperdual64", "thorough", None)]:
     add("c03_iter", f"c03_iter_sum_{ty}", "C03",
         f"{ty}: iter().sum() and into_iter().sum() == ((zero() + x0) + x1) + x2 in every part; empty iterator gives zero()",
-        IT, "quick", flags=NOOVF)
-    add("c03_iter", f"c03_iter_product_{ty}", "C03",
-        f"{ty}: iter().product() and into_iter().product() == ((one() * x0) * x1) * x2 in every part; empty iterator gives one()",
-        IT, "quick", flags=NOOVF)
+        IT, ts, flags=NOOVF)
+    if tp:  # hyperhyperdual64 product: > 10 min, not covered; DualSVec64<2>: not tractable (see c03_iter.rs)
+        add("c03_iter", f"c03_iter_product_{ty}", "C03",
+            f"{ty}: iter().product() and into_iter().product() == ((one() * x0) * x1) * x2 in every part; empty iterator gives one()",
+            IT, tp, flags=NOOVF)
 
 # ------------------------------------------------------------------ C04
 add("c04_nderiv", "c04_nderiv_table", "C04",
